@@ -38,7 +38,7 @@ pub async fn run_socket_worker(
     state: State,
     opt_tls_config: Option<Arc<ArcSwap<RustlsConfig>>>,
     request_mesh_builder: MeshBuilder<ChannelRequest, Partial>,
-    mut priv_droppers: Vec<PrivilegeDropper>,
+    priv_dropper: PrivilegeDropper,
     server_start_instant: ServerStartInstant,
     worker_index: usize,
 ) -> anyhow::Result<()> {
@@ -46,29 +46,24 @@ pub async fn run_socket_worker(
 
     let tcp_listeners = {
         let opt_listener_ipv4 = if config.network.use_ipv4 {
-            let priv_dropper = priv_droppers
-                .pop()
-                .ok_or(anyhow::anyhow!("no enough priv droppers"))?;
-            let socket =
-                create_tcp_listener(&config, priv_dropper, config.network.address_ipv4.into())
-                    .context("create tcp listener")?;
+            let socket = create_tcp_listener(&config, config.network.address_ipv4.into())
+                .context("create tcp listener")?;
 
             Some(socket)
         } else {
             None
         };
         let opt_listener_ipv6 = if config.network.use_ipv6 {
-            let priv_dropper = priv_droppers
-                .pop()
-                .ok_or(anyhow::anyhow!("no enough priv droppers"))?;
-            let socket =
-                create_tcp_listener(&config, priv_dropper, config.network.address_ipv6.into())
-                    .context("create tcp listener")?;
+            let socket = create_tcp_listener(&config, config.network.address_ipv6.into())
+                .context("create tcp listener")?;
 
             Some(socket)
         } else {
             None
         };
+
+        // Wait for the other workers only once all listeners of this worker are bound
+        priv_dropper.after_socket_creation()?;
 
         [opt_listener_ipv4, opt_listener_ipv6]
             .into_iter()
@@ -263,17 +258,11 @@ async fn clean_connections(
     ))
 }
 
-fn create_tcp_listener(
-    config: &Config,
-    priv_dropper: PrivilegeDropper,
-    address: SocketAddr,
-) -> anyhow::Result<TcpListener> {
+fn create_tcp_listener(config: &Config, address: SocketAddr) -> anyhow::Result<TcpListener> {
     #[cfg(aquatic_verif)]
     {
         let listener = TcpListener::sim_bind(address, config.network.set_only_ipv6)
             .with_context(|| format!("socket: bind to {}", address))?;
-
-        priv_dropper.after_socket_creation()?;
 
         return Ok(listener);
     }
@@ -310,8 +299,6 @@ fn create_tcp_listener(
     socket
         .listen(config.network.tcp_backlog)
         .with_context(|| format!("socket: listen on {}", address))?;
-
-    priv_dropper.after_socket_creation()?;
 
     Ok(unsafe { TcpListener::from_raw_fd(socket.into_raw_fd()) })
 }
